@@ -21,11 +21,16 @@ pub struct BarSetup {
     pub retemplate: Option<String>,
     /// draw once, then change the tab width to this, then draw the captured frame
     pub retab: Option<usize>,
+    /// the bar is a member of a MultiProgress that owns the terminal
+    pub in_multi: bool,
+    /// the terminal reported this width while an earlier frame was drawn; the captured frame is the first
+    /// one after it reports `cols`
+    pub resized_from: Option<u16>,
 }
 
 impl Default for BarSetup {
     fn default() -> Self {
-        BarSetup { len: Some(42), pos: 7, msg: "Msg".into(), prefix: "Pre".into(), cols: 300, rows: 200, extra_ticks: 0, finish: false, tab_width: None, retemplate: None, retab: None }
+        BarSetup { len: Some(42), pos: 7, msg: "Msg".into(), prefix: "Pre".into(), cols: 300, rows: 200, extra_ticks: 0, finish: false, tab_width: None, retemplate: None, retab: None, in_multi: false, resized_from: None }
     }
 }
 
@@ -39,10 +44,16 @@ pub enum RenderErr {
 pub fn render(style: ProgressStyle, s: &BarSetup) -> Result<Vec<String>, RenderErr> {
     let vt = VTerm::raw(s.rows as usize, s.cols as usize);
     let r = catch(|| {
-        let pb = ProgressBar::with_draw_target(s.len, ProgressDrawTarget::term_like(vt.boxed()))
+        let mp = if s.in_multi { Some(indicatif::MultiProgress::with_draw_target(ProgressDrawTarget::term_like(vt.boxed()))) } else { None };
+        let target = if s.in_multi { ProgressDrawTarget::hidden() } else { ProgressDrawTarget::term_like(vt.boxed()) };
+        let pb = ProgressBar::with_draw_target(s.len, target)
             .with_position(s.pos)
             .with_message(s.msg.clone())
             .with_prefix(s.prefix.clone());
+        let pb = match &mp {
+            Some(mp) => mp.add(pb),
+            None => pb,
+        };
         if let Some(w) = s.tab_width {
             pb.set_tab_width(w);
         }
@@ -58,6 +69,11 @@ pub fn render(style: ProgressStyle, s: &BarSetup) -> Result<Vec<String>, RenderE
             pb.tick();
             pb.set_tab_width(w);
         }
+        if let Some(w0) = s.resized_from {
+            vt.lock().report_cols = Some(w0.max(1));
+            pb.tick();
+            vt.lock().report_cols = Some(s.cols);
+        }
         if s.finish {
             pb.abandon(); // finished, position unchanged, forced draw
         } else {
@@ -65,6 +81,7 @@ pub fn render(style: ProgressStyle, s: &BarSetup) -> Result<Vec<String>, RenderE
         }
         let lines = vt.last_frame_lines();
         drop(pb);
+        drop(mp);
         lines
     });
     match r {
